@@ -192,7 +192,9 @@ namespace
     if (mn == 1) f += "\"min depth\":" + num(m_const) + ",";
     if (mn == 2) f += "\"min depth\":[[" + num(top_default) + "],[" + num(top_q) + ",[" + pt({Q[0]*s, Q[1]*s}) + "]]],";
     if (mx == 1) f += "\"max depth\":" + num(M_const) + ",";
-    if (mx == 2) f += "\"max depth\":[[" + num(bot_default) + "],[" + num(bot_q) + ",[" + pt({Q[0]*s, Q[1]*s}) + "]]],";
+    // (both surfaces given at points: the bottom lists its value at another point than the top, so that the two triangulations differ)
+    const P2 QB = mn == 2 ? P2{{-2.0, -3.0}} : Q;
+    if (mx == 2) f += "\"max depth\":[[" + num(bot_default) + "],[" + num(bot_q) + ",[" + pt({QB[0]*s, QB[1]*s}) + "]]],";
     const double deg_per_m = 180.0 / (PI * R_EARTH);
     if (fk <= 2) f += "\"coordinates\":" + sq(-5, 5, -5, 5) + "," + models + "}";
     else if (fk == 3)
@@ -209,13 +211,21 @@ namespace
     auto w = make_world(text);
     double my_tag = -2;
     for (size_t i = 0; i < w->feature_tags.size(); ++i) if (w->feature_tags[i] == LKIND[fk]) my_tag = static_cast<double>(i);
-    struct Loc { double x, y, top, bot; const char *name; };   // lattice units; local top / bottom of the feature there (NAN: no limit)
+    struct Loc { double x, y, top, bot; const char *name; bool use_top = true, use_bot = true; };   // lattice units; local top / bottom of the feature there (NAN: no limit)
     std::vector<Loc> locs;
     const double margin = 2e4;
     if (fk <= 2)
       {
         const double t_def = mn == 0 ? NAN : top_default, b_def = mx == 0 ? NAN : bot_default;
-        locs.push_back({Q[0] + 0.01, Q[1] + 0.01, mn == 2 ? top_q : t_def, mx == 2 ? bot_q : b_def, "at the listed value point"});
+        if (mn == 2 && mx == 2)
+          {
+            // near Q the top is top_q and the bottom close to its default (Q is 4.6 units from QB: the bottom there is within 10 km of the default ... use a wide margin by probing 60 km beyond)
+            // (the other surface is only known to lie between its default and its listed value there: it is used for the sanity probes, not judged)
+            locs.push_back({QB[0] + 0.01, QB[1] + 0.01, top_q, bot_q, "at the value point of the bottom surface", false, true});
+            locs.push_back({Q[0] + 0.01, Q[1] + 0.01, top_q, bot_q, "at the value point of the top surface", true, false});
+          }
+        else
+          locs.push_back({Q[0] + 0.01, Q[1] + 0.01, mn == 2 ? top_q : t_def, mx == 2 ? bot_q : b_def, "at the listed value point"});
         locs.push_back({-4.9, -3.0, t_def, b_def, "near the polygon edge"});
         locs.push_back({3.0, 4.9, t_def, b_def, "near another polygon edge"});
       }
@@ -275,10 +285,10 @@ namespace
                           .num("x", l.x*s).num("y", l.y*s).num("depth_below_top", din).boolean("found_below_top", in1).num("depth_above_bottom", din2).boolean("found_above_bottom", in2).str("world", text).done());
             continue;
           }
-        if (!std::isnan(l.top) && l.top > 0)
+        if (l.use_top && !std::isnan(l.top) && l.top > 0)
           for (double dd : {l.top - margin, l.top - 4*margin, 0.0})
             if (dd >= 0) { expect_background(query_point(sph, l.x*s, l.y*s, dd), dd, l.name, "above the top"); meaningful = true; }
-        if (!std::isnan(l.bot))
+        if (l.use_bot && !std::isnan(l.bot))
           for (double dd : {l.bot + margin, l.bot + 4*margin, l.bot + 3e5})
             { expect_background(query_point(sph, l.x*s, l.y*s, dd), dd, l.name, "below the bottom"); meaningful = true; }
       }
